@@ -175,11 +175,14 @@ Definition put_pixel (amax : Z) (L : layout) (buf : list Z) (op : Z) (t : px3) :
 
 Fixpoint put_cols (amax : Z) (L : layout) (px : list px3) (buf : list Z) (op : Z) : list Z :=
   match px with [] => buf | t :: r => put_cols amax L r (put_pixel amax L buf op t) (op + psz L) end.
-Fixpoint put_rows (amax : Z) (L : layout) (img : list (list px3)) (buf : list Z) (ptrs : list Z) : list Z :=
+(* the row loop of every output routine: row k is written through output pointer k *)
+Fixpoint write_rows {R : Type} (wr : R -> list Z -> Z -> list Z) (img : list R) (buf : list Z) (ptrs : list Z) : list Z :=
   match img, ptrs with
-  | row :: ri, op :: rp => put_rows amax L ri (put_cols amax L row buf op) rp
+  | row :: ri, op :: rp => write_rows wr ri (wr row buf op) rp
   | _, _ => buf
   end.
+Definition put_rows (amax : Z) (L : layout) : list (list px3) -> list Z -> list Z -> list Z :=
+  write_rows (put_cols amax L).
 
 Definition ycc_rgb_convert (p : sprec) (L : layout) (img : list (list px3)) (buf : list Z) (ptrs : list Z) : list Z :=
   put_rows (sp_max p) L (map (map (rgb_of_ycc p)) img) buf ptrs.
@@ -197,11 +200,7 @@ Definition unpack_alpha (L : layout) (buf : list Z) (ptrs : list Z) (w : nat) : 
    jcopy_sample_rows(input_buf[0], ...) -- component 0 is copied, one sample per pixel *)
 Fixpoint put_gray_cols (ys : list Z) (buf : list Z) (op : Z) : list Z :=
   match ys with [] => buf | y :: r => put_gray_cols r (upd buf op y) (op + 1) end.
-Fixpoint put_gray_rows (img : list (list Z)) (buf : list Z) (ptrs : list Z) : list Z :=
-  match img, ptrs with
-  | row :: ri, op :: rp => put_gray_rows ri (put_gray_cols row buf op) rp
-  | _, _ => buf
-  end.
+Definition put_gray_rows : list (list Z) -> list Z -> list Z -> list Z := write_rows put_gray_cols.
 Definition grayscale_convert_d (img : list (list px3)) (buf : list Z) (ptrs : list Z) : list Z :=
   put_gray_rows (plane 0 img) buf ptrs.
 Fixpoint gray_cols (buf : list Z) (ip : Z) (n : nat) : list Z :=
@@ -230,11 +229,10 @@ Fixpoint h2v1_cols (p : sprec) (L : layout) (ys cbs crs : list Z) (buf : list Z)
   | _, _ => buf
   end.
 
-Fixpoint h2v1_rows (p : sprec) (L : layout) (ys cbs crs : list (list Z)) (buf : list Z) (ptrs : list Z) : list Z :=
-  match ys, cbs, crs, ptrs with
-  | y :: ty, cb :: tcb, cr :: tcr, op :: tp => h2v1_rows p L ty tcb tcr (h2v1_cols p L y cb cr buf op) tp
-  | _, _, _, _ => buf
-  end.
+Fixpoint zip3rows (a b c : list (list Z)) : list (list Z * list Z * list Z) :=
+  match a, b, c with x :: ta, y :: tb, z :: tc => (x, y, z) :: zip3rows ta tb tc | _, _, _ => [] end.
+Definition h2v1_rows (p : sprec) (L : layout) (ys cbs crs : list (list Z)) (buf : list Z) (ptrs : list Z) : list Z :=
+  write_rows (fun r => h2v1_cols p L (fst (fst r)) (snd (fst r)) (snd r)) (zip3rows ys cbs crs) buf ptrs.
 (* h2v2_merged_upsample_internal: two output rows share one chroma row *)
 Fixpoint dup_rows {A : Type} (l : list A) : list A := match l with [] => [] | x :: t => x :: x :: dup_rows t end.
 Definition h2v2_rows (p : sprec) (L : layout) (ys cbs crs : list (list Z)) (buf : list Z) (ptrs : list Z) : list Z :=
@@ -264,6 +262,23 @@ Definition mkbuf (L : layout) (rowsp : list (list quad * list Z)) (bottomUp : bo
   concat (if bottomUp then rev chunks else chunks).
 Definition picture (rowsp : list (list quad * list Z)) : list (list px3) :=
   map (fun rp => map rgb_of_quad (fst rp)) rowsp.
+
+(* ------------------------------------------------------------------ specification predicates *)
+Definition WF (L : layout) : Prop :=
+  (psz L = 3 \/ psz L = 4) /\ 0 <= roff L < psz L /\ 0 <= goff L < psz L /\ 0 <= boff L < psz L /\
+  roff L <> goff L /\ roff L <> boff L /\ goff L <> boff L /\
+  (aoff L = -1 \/ (0 <= aoff L < psz L /\ aoff L <> roff L /\ aoff L <> goff L /\ aoff L <> boff L)).
+
+(* rowsp presents a picture of width w in layout L with row pitch `pitch`:
+   every row has w pixels and is followed by exactly pitch - w*psz padding samples *)
+Definition presentation (L : layout) (w : nat) (pitch : Z) (rowsp : list (list quad * list Z)) : Prop :=
+  Forall (fun rp => length (fst rp) = w /\ Z.of_nat (length (snd rp)) = pitch - Z.of_nat w * psz L) rowsp.
+
+(* output row pointers: rows of d samples starting at the pointers are pairwise disjoint and inside a buffer of n samples *)
+Fixpoint separated (d : Z) (l : list Z) : Prop :=
+  match l with [] => True | a :: t => Forall (fun b => a + d <= b \/ b + d <= a) t /\ separated d t end.
+Definition in_bounds (d : Z) (n : nat) (l : list Z) : Prop := Forall (fun op => 0 <= op /\ op + d <= Z.of_nat n) l.
+Definition outside_rows (d : Z) (l : list Z) (j : Z) : Prop := forall op, In op l -> j < op \/ op + d <= j.
 
 (* ------------------------------------------------------------------ table checks (booleans run by vm_compute) *)
 Definition same_rgbp (t : option (Z * Z * Z * Z * Z)) (L : layout) : bool :=
